@@ -72,6 +72,14 @@ def check(run):
     mirrors(run, p)
     sem(run, p, km)
     fuzz(run, p, km)
+    from .common import keyorder_rule
+    n = keyorder_rule(run, 'C02-KEYORDER', p,
+                      [f for f in p.funcs.values() if f.rel in ('tdda/constraints/base.py', 'tdda/constraints/baseconstraints.py',
+                                                                 'tdda/constraints/pd/constraints.py')],
+                      'a verdict does not depend on the order in which a field\'s constraints (or any other dictionary\'s keys) are '
+                      'written: no loop over a dictionary\'s items carries a plain local from the handling of one key to the '
+                      'handling of another (accumulations are order-free and allowed)')
+    run.floor('C02-KEYORDER', n, 4)
     from .. import ief, triage
     ief.run_ief(run, 'C02', [p.fn('verify_df')], triage=triage.IEF)
     run.floor('C02-IEF', run.units['ief_functions_checked'], 80)
